@@ -172,6 +172,7 @@ type Record struct {
 	FinalTail   int   `json:"finalTail"`
 	TailWant    int   `json:"tailWant"`
 	HeadWant int `json:"headWant"`
+	TailBad  int `json:"tailBad"` // failed deletions after which Tail() was not a stored header
 	Missing     []int `json:"missing"`
 	RestartHead int   `json:"restartHead"` // Head / Tail of a fresh Store on the same datastore after a clean Stop (-1: could not start)
 	RestartTail int   `json:"restartTail"`
